@@ -73,6 +73,7 @@ type DirectConnection struct {
 	closed                   sync2.AtomicBool
 	capabilityConnectToMySQL uint32
 	moreRowExists            bool
+	resultRows               int // rows of the current result set read so far, across FetchMoreRows chunks
 	handshakeTimeout         time.Duration
 }
 
@@ -1004,6 +1005,7 @@ func (dc *DirectConnection) readResultSet(data []byte, binary bool, maxRows int)
 		return nil, err
 	}
 
+	dc.resultRows = 0
 	if err := dc.readResultRows(result, binary, maxRows); err != nil {
 		return nil, err
 	}
@@ -1083,7 +1085,8 @@ func (dc *DirectConnection) readResultRows(result *mysql.Result, isBinary bool, 
 		}
 
 		result.RowDatas = append(result.RowDatas, data)
-		if maxRows > 0 && len(result.RowDatas) > maxRows {
+		dc.resultRows++
+		if maxRows > 0 && dc.resultRows > maxRows {
 			if err := dc.drainResults(); err != nil {
 				dc.pkgErr = fmt.Errorf("%v", sqlerr.ErrInvalidPacket)
 				return fmt.Errorf("%v %d, drain error: %v", sqlerr.ErrRowsLimitExceeded, maxRows, err)
